@@ -146,7 +146,9 @@ def ensure_built(verbose=True):
                 os.path.getmtime(os.path.join(COQ, 'Makefile')) < os.path.getmtime(os.path.join(COQ, '_CoqProject')):
             _run(['coq_makefile', '-f', '_CoqProject', '-o', 'Makefile'], cwd=COQ)
         b.make_cmd = f'cd {COQ} && coq_makefile -f _CoqProject -o Makefile && make -k -j{NPROC}'
-        rc, out = _run(['timeout', '3000', 'make', '-k', f'-j{NPROC}'], cwd=COQ, timeout=3100)
+        # every file under its own time limit: a source change can make a vm_compute obligation over the regenerated
+        # tables explode (e.g. an exponentially ambiguous regex); that file then counts as a broken obligation
+        rc, out = _run(['timeout', '3000', 'make', '-k', f'-j{NPROC}', 'COQC=timeout 900 coqc'], cwd=COQ, timeout=3100)
         b.log += out
         b.failed_vo = sorted(set(re.findall(r'\*\*\* \[Makefile[^\]]*: ([^\]]+?)\.vo\] Error', out)))
         for m in re.finditer(r'File "\./(theories/[^"]+\.v)"[^\n]*\n(?:[^\n]*\n){0,6}?Error', out):
